@@ -35,6 +35,9 @@ extern struct S *ps;
 extern union U gu;
 volatile int vol;
 const int cst = 3;
+extern int * const * gq[2];
+extern int * volatile * (*gr)(void);
+extern int * const * * gqq;
 """
 
 # file-scope declarations (each self-contained after PRELUDE); {n} makes names unique per file
@@ -80,7 +83,7 @@ def normalise(asm):
 
 
 def gcc_asm(text, opt):
-    r = subprocess.run(["gcc", "-std=gnu11", "-w", "-fno-builtin", opt, "-S", "-o", "-", "-x", "c", "-"], input=text,
+    r = subprocess.run(["gcc", "-std=gnu11", "-w", "-Werror=incompatible-pointer-types", "-Werror=discarded-qualifiers", "-fno-builtin", opt, "-S", "-o", "-", "-x", "c", "-"], input=text,
                        capture_output=True, text=True)
     if r.returncode:
         return None, r.stderr[:400]
